@@ -332,7 +332,7 @@ impl Gen {
                         2 => &[" on", "off ", "auto", "two words"],
                         _ => &["a"],
                     };
-                    if w == 0 || e.iter().all(|s| s.len() <= w as usize) || (w >= 1 && self.rng.chance(300) && e.iter().any(|s| s.len() <= w as usize)) {
+                    if w == 0 || e.iter().all(|s| s.len() <= w as usize) || (w >= 1 && self.rng.chance(600) && e.iter().any(|s| s.len() <= w as usize)) {
                         // (sometimes an enumeration that is inconsistent with the width: a listed
                         // value that is too long stays an invalid value)
                         c.enums = e.iter().map(|s| s.to_string()).collect();
@@ -1184,9 +1184,17 @@ impl Gen {
                 }
             }
             let mut bad = self.gen_row(&t);
-            let ci = self.rng.usize_below(t.cols.len());
+            let mut ci = self.rng.usize_below(t.cols.len());
+            let mut variant = self.rng.below(10);
+            // a column whose enumeration lists a value that its width does not admit: ask for it
+            if let Some(i) = (0..t.cols.len()).find(|&i| t.cols[i].enums.iter().any(|e| !value_valid(&t.cols[i], &Val::Str(e.to_string())))) {
+                if self.rng.chance(500) {
+                    ci = i;
+                    variant = 8;
+                }
+            }
             let c = &t.cols[ci];
-            match self.rng.below(10) {
+            match variant {
                 9 => {
                     // a value that occurs, validly, in another column of this batch
                     let mut done = false;
